@@ -29,8 +29,9 @@ ASSUMPTIONS = [
     'ids contain no tab / newline / carriage return / Unicode line '
     'separator, do not start with "#", and have no str.isspace() character '
     'at either end',
-    'taxonomy elements are non-empty, contain no ";" or tab and no edge '
-    'whitespace, and the joined text is never parseable as a number',
+    'taxonomy elements contain no ";" or tab and no edge whitespace, may be '
+    'empty (rank padding) but not all of them, and the joined text is never '
+    'parseable as a number',
 ]
 REQUIRED = ['export_to_tsv', 'export_str', 'export_direct_io',
             'export_cli', 'import_from_tsv_lines', 'import_from_tsv_handle',
@@ -74,8 +75,14 @@ def run_case(ctx, index):
         return
     with_md = r.random() < .4
     if with_md:
-        spec.obs_md = [{'taxonomy': [r.choice(_TAXA) for _ in range(
-            r.randint(1, 4))]} for _ in spec.obs_ids]
+        def lineage():
+            # rank-padded lineages: unassigned ranks are empty strings
+            ln = [r.choice(_TAXA) if r.random() > .18 else ''
+                  for _ in range(r.randint(1, 5))]
+            if not any(ln):
+                ln[0] = r.choice(_TAXA)
+            return ln
+        spec.obs_md = [{'taxonomy': lineage()} for _ in spec.obs_ids]
         ctx.count('with_md_column')
     if r.random() < .3 and spec.D.size:
         # force an exponent-notation value into the last column
@@ -129,7 +136,10 @@ def run_case(ctx, index):
             inp = ctx.path('c03in%d.biom' % index)
             outp = ctx.path('c03out%d.tsv' % index)
             files += [inp, outp]
-            if r.random() < .5:
+            has_empty_rank = with_md and any('' in e['taxonomy']
+                                             for e in spec.obs_md)
+            # HDF5 cannot hold empty list elements (they are its padding)
+            if r.random() < .5 and not has_empty_rank:
                 biom.save_table(t, inp)
             else:
                 with open(inp, 'w', encoding='utf-8') as f:
@@ -194,6 +204,9 @@ def run_case(ctx, index):
         ]
         if index % 8 in (3, 5):
             fmt = 'json' if index % 16 < 8 else 'hdf5'
+            if with_md_export and any('' in e['taxonomy']
+                                      for e in spec.obs_md):
+                fmt = 'json'
             outb = ctx.path('c03conv%d.biom' % index)
             files.append(outb)
 
@@ -226,7 +239,9 @@ def run_case(ctx, index):
                     expm = [{'taxonomy': list(e['taxonomy'])}
                             for e in spec.obs_md]
                 else:
-                    expm = [{'taxonomy': '; '.join(e['taxonomy'])}
+                    # read without a processing function the text comes back
+                    # as written, minus the blanks at the end of the line
+                    expm = [{'taxonomy': '; '.join(e['taxonomy']).strip()}
                             for e in spec.obs_md]
                 if not snap.md_equal(g.obs_md, expm):
                     raise Violation('C03/roundtrip-metadata/' + nm, '%r vs '
